@@ -16,6 +16,13 @@ mod test_server;
 mod waker_queue;
 mod worker;
 
+/// Verification hooks (only with `--cfg actix_net_verif`).
+#[cfg(actix_net_verif)]
+#[allow(missing_docs)]
+pub mod verif {
+    pub use crate::{accept::verif::*, worker::verif::*};
+}
+
 #[doc(hidden)]
 pub use self::socket::FromStream;
 pub use self::{
